@@ -64,6 +64,19 @@ CHECKS = {
    note="bounded: all sequences of <= 3 (quick) / 4 (thorough) kinds over 11 document kinds x marker/comment variants, random longer "
         "streams; whether the iterator ends or goes on after an unknown-alias error is not prescribed (both admissible); " + TRUST,
    technique="TLA+ model (Stream.tla, MC_Stream.tla incl. liveness) checked by TLC + TLC trace validation of recorded entry-point results"),
+ "C05": dict(
+   category="model_checking",
+   text="TypedCursor.tla is the reference interpreter the property asks for: Faithful(schema, events, node) fills every Rust "
+        "position from the YAML node at the corresponding position or fails, with the documented leniencies spelled out; TLC "
+        "checks algebraic laws of it on every small document and enumerates the documents; the harness forms the product with a "
+        "schema family and schema-directed near-miss documents, runs the real typed deserialize_* calls through a run-time "
+        "Schema seed via from_str, with_deserializer_from_str, from_multiple and read, and the TLA+ trace validator decides "
+        "every record against FaithfulDoc.",
+   design_ref="DESIGN.md section 4 C05",
+   note="bounded: all documents up to 6 (quick) / 7 (thorough) events x 45 schemas of depth <= 2 exhaustively; random schemas of "
+        "depth <= 3 with mutated matching documents beyond; integers are single digits, strings from a small alphabet (scalar "
+        "interpretation itself is C06); tagged enum notation not yet in the model; " + TRUST,
+   technique="TLA+ reference interpreter (TypedCursor.tla) + TLC laws/enumeration + TLC trace validation of recorded typed calls"),
 }
 
 NOT_YET = "check not built yet (work in progress); it will be claimed once its TLA+ model and conformance harness are registered"
